@@ -2,6 +2,7 @@ package raft
 
 import (
 	"errors"
+	"sync"
 	"time"
 )
 
@@ -31,6 +32,9 @@ type future[T Response] struct {
 
 	// The result of the future.
 	response Result[T]
+
+	// Protects the result: Await may be called from more than one goroutine.
+	mu sync.Mutex
 }
 
 func newFuture[T Response](timeout time.Duration) *future[T] {
@@ -41,6 +45,10 @@ func newFuture[T Response](timeout time.Duration) *future[T] {
 }
 
 func (f *future[T]) Await() Result[T] {
+	// A second caller waits here until the first one has the result and then gets the same one.
+	f.mu.Lock()
+	defer f.mu.Unlock()
+
 	if f.response != nil {
 		return f.response
 	}
